@@ -157,3 +157,9 @@ package datastore
 //@   ensures len(keys) > 0 && result1 == nil ==> viaResolver
 //@   ensures len(keys) > 0 && result1 == nil && result0 != nil ==> resolved != nil && sameslice(result0, resolved.K)
 //@   ensures len(keys) > 0 && result1 == nil && resolved == nil ==> result0 == nil
+
+// ---- which requests count as mutations of a data instance (C02 gate) ----
+
+//@ func Data.IsMutationRequest
+//@   prop C02
+//@   ensures result == (tolower(action) == "post" || tolower(action) == "put" || tolower(action) == "delete")
